@@ -727,4 +727,11 @@ def r8_identifier_lookup(ctx: Ctx) -> None:
     lex_identifier_qualified(ctx)
 
 
-RULES = [r1_precedence_order, r2_associativity, r3_evaluation_dispatch, r4_literal_bases, r5_single_evaluator, r6_identifier_values, r7_parenthesised_operand_expressions, r8_identifier_lookup, rb_binding_agreement, rm_no_process_lifetime_results, ru_names_bound]
+def r9_definitions_evaluate_where_written(ctx: Ctx) -> None:
+    """`name = expr` is one of the contexts an expression can stand in: it is evaluated in the scope it is written in, the parent being entered only for the macro-argument case (C08.R6)"""
+    from .c08 import r6_macro_arguments_in_caller_scope as _c08_r6_macro_arguments_in_caller_scope
+
+    _c08_r6_macro_arguments_in_caller_scope(ctx)
+
+
+RULES = [r1_precedence_order, r2_associativity, r3_evaluation_dispatch, r4_literal_bases, r5_single_evaluator, r6_identifier_values, r7_parenthesised_operand_expressions, r8_identifier_lookup, r9_definitions_evaluate_where_written, rb_binding_agreement, rm_no_process_lifetime_results, ru_names_bound]
